@@ -28,14 +28,15 @@ Lbs == {NoneQ, R(-2), R(0)}
 Ubs == {NoneQ, R(4), Norm(5, 2)}
 BoundPairs == {<<l, u>> \in Lbs \X Ubs : TRUE}
 
-ObjClasses  == {"qp", "nonquad"}          \* strictly convex quadratic | quadratic + smooth convex non-quadratic
+ObjClasses  == {"qp", "nonquad", "lsqdeep"}   \* strictly convex quadratic | quadratic + smooth convex non-quadratic |
+                                              \* a least-squares fit accumulated term by term over > 400 data points (a deep expression)
 ConPatterns == {"none", "eq", "ineq_active", "ineq_inactive", "bounds_active"}
 Orders      == {"natural", "reversed"}    \* variable names in creation order or not
 Senses      == {"min", "max"}             \* minimise f | maximise -f
 Methods     == {"auto", "SLSQP", "trust-constr", "L-BFGS-B"}
 
 HasCons(p) == p \in {"eq", "ineq_active", "ineq_inactive"}
-ObjDeg(o)  == IF o = "qp" THEN 2 ELSE 9
+ObjDeg(o)  == IF o = "nonquad" THEN 9 ELSE 2
 AutoMethod(o, p) == IF ~HasCons(p) THEN "L-BFGS-B" ELSE IF ObjDeg(o) > 2 THEN "trust-constr" ELSE "SLSQP"
 
 Spellings == {"scalar", "vector"}         \* scalar Variables and products | VectorVariable, quadratic_form, a @ x
@@ -50,7 +51,10 @@ Structs == {s \in [n : 2..3, obj : ObjClasses, cons : ConPatterns, order : Order
               /\ (s.m = "L-BFGS-B" => ~HasCons(s.cons))
               /\ (s.cons = "bounds_active" => ~IsNoneQ(s.bp[2]))
               \* the option variants are crossed with one spelling / form of the rest (they are independent pass-throughs)
-              /\ (s.opts # "default" => s.spell = "scalar" /\ s.order = "natural" /\ s.cform = "ge" /\ s.oform = "plain")}
+              /\ (s.opts # "default" => s.spell = "scalar" /\ s.order = "natural" /\ s.cform = "ge" /\ s.oform = "plain")
+              \* the deep objective is crossed with methods, senses, constraint patterns and bounds only
+              /\ (s.obj = "lsqdeep" => s.spell = "scalar" /\ s.order = "natural" /\ s.cform = "ge" /\ s.oform = "plain"
+                                        /\ s.opts = "default" /\ s.n = 2)}
 
 Wire(s) ==
     LET meth == IF s.m = "auto" THEN AutoMethod(s.obj, s.cons) ELSE s.m IN
